@@ -952,7 +952,8 @@ def run(ctx):
     ls.build_squid(ctx)
     jobs = jobs_for(ctx.tier)
     plans = plan_shards(jobs, ctx.ncpu, nn_bins=1 if ctx.quick else 3)
-    t_end = ctx.t0 + ctx.deadline_s - (25 if ctx.quick else 60)
+    # the tier deadline includes the build; after a slow (contended) build still explore for a minimum window
+    t_end = max(ctx.t0 + ctx.deadline_s - (25 if ctx.quick else 60), time.time() + 90)
 
     def worker(i, items):
         return run_shard(ctx, i, items[0], ctx.tier, t_end)
